@@ -114,7 +114,14 @@ def g_fmt(n, pid):
         funs.append(_fun("g%d" % i, [x], [SI], SI, body))
     shown = sorted(set([0, 1, n - 1, n - 2, n - 3, 249, 250, 251, 252, 253, 254, 255, 256, 257]))
     top = [{"d": "stmt", "x": _pr({"e": "call", "fi": k + 1, "args": [lit(SI, 1)]})} for k in shown if 0 <= k < n]
-    return _prog(pid, funs, top)
+    # a record type that is met after all those levels: its format number is a field of the Decl of record-valued
+    # variables (decl:fmt), of RNew and of RElt
+    rb = {"e": "let", "x": "rr", "t": ["rec", 0], "v": {"e": "mkrec", "t": ["rec", 0], "args": [var("xp"), lit(BI, 10 ** 15 + 3)]}, "body":
+          {"e": "seq", "t": SI, "es": [{"e": "rset", "r": var("rr"), "i": 1, "v": prim("si.add", {"e": "rget", "r": var("rr"), "i": 1, "rt": 0}, lit(SI, 9)), "rt": 0},
+                                       {"e": "rget", "r": var("rr"), "i": 1, "rt": 0}]}}
+    funs.append(_fun("wr", ["xp"], [SI], SI, rb))
+    top.append({"d": "stmt", "x": _pr({"e": "call", "fi": n + 1, "args": [lit(SI, 30)]})})
+    return _prog(pid, funs, top, recs=[[SI, BI]])
 
 
 def g_clos(n, pid):
@@ -207,6 +214,9 @@ def t_multi(n):
                  "+-> { free x%d; x%d := x%d + q; x%d }; k%d(%d) + k%d(1) }" % (i, i, i, i, i, i, i, i, i, i))
     o.append("two(x: SingleInteger): (SingleInteger, SingleInteger) == (x + 1, x + 2);")
     o.append("three(x: SingleInteger): (SingleInteger, Integer, SingleInteger) == (x + 1, 7, x + 3);")
+    o.append("WD: with { wv: SingleInteger -> SingleInteger } == add { st: SingleInteger := 3; wv(q: SingleInteger): SingleInteger == { free st; st := st + q; st } }")
+    o.append("import from WD;")
+    o.append("print << wv(4) << \" \" << wv(5) << newline;")
     o.append("(a, b) := two(5);")
     o.append("(c, d, e) := three(8);")
     o.append("print << a << \" \" << b << \" \" << c << \" \" << d << \" \" << e << newline;")
@@ -262,7 +272,7 @@ def measure(tree):
         t = x[0]
         if isinstance(t, str):
             a = x[1:]
-            if t in ("Loc", "Par", "Glo", "Const", "Label") and a:
+            if t in ("Loc", "Par", "Glo", "Const", "Label", "RNew") and a:
                 up("idx:" + t, _int(a[0]))
             elif t == "Lex" and len(a) >= 2:
                 up("midx:Lex", _int(a[0]))
@@ -292,8 +302,8 @@ def measure(tree):
                     up("bint:places", (abs(int(a[0])).bit_length() + 15) // 16)
                 except ValueError:
                     pass
-            elif t == "PushEnv" and a:
-                up("fix:PushEnv", _int(a[0]))
+            elif t == "MFmt" and a:
+                up("fix:MFmt", _int(a[0]))
         for y in x:
             if isinstance(y, list):
                 go(y)
